@@ -12,6 +12,7 @@ pub mod exec;
 pub mod data;
 pub mod s_dp;
 pub mod s_dpagg;
+pub mod s_pup;
 pub mod s_fn;
 pub mod s_inj;
 pub mod s_filter;
@@ -66,6 +67,7 @@ fn streams() -> Vec<(&'static str, GenFn, EvalFn)> {
         ("dpevent", s_dp::gen_event_case, s_dp::eval_event_case),
         ("dpquery", s_dp::gen_query, s_dp::eval_query),
         ("dpagg", s_dpagg::gen, s_dpagg::eval),
+        ("pup", s_pup::gen, s_pup::eval),
     ]
 }
 
